@@ -1,7 +1,7 @@
 (* Property C02 -- Checksums follow the protocol and expose any corruption. *)
 From Coq Require Import ZArith List Bool.
 From Verif Require Import Base.Wrap Base.Bytes Gen.GenConsts Gen.GenFrame Model.Crc Model.Frag
-  Spec.FragSpec Spec.FragOk Proofs.FragWP Proofs.CkP.
+  Spec.FragSpec Spec.FragOk Proofs.FragWP Proofs.CkP Proofs.CrcP.
 Import ListNotations.
 Local Open Scope Z_scope.
 
@@ -43,7 +43,45 @@ Proof.
     destruct (t =? c_ChecksumTypeCrc32); [discriminate|]. destruct (t =? c_ChecksumTypeCrc32C); discriminate.
 Qed.
 
+(* (b) detection.  one_byte_diff d d' = the byte strings agree except at exactly one position
+   where two different bytes stand.  rs_with_in st fs = reader state st about to receive fs. *)
+
+(* the CRC itself: a single altered byte always changes the CRC, for both polynomials, any
+   initial value, any position, any surrounding bytes *)
+Theorem C02_crc_detects_one_byte : forall P c pre x y post,
+  P = poly_ieee \/ P = poly_castagnoli -> 0 <= x < 256 -> 0 <= y < 256 -> x <> y ->
+  crc32_update P c (pre ++ x :: post) <> crc32_update P c (pre ++ y :: post).
+Proof. exact crc_detect_one_byte. Qed.
+
+(* an argument byte of a fragment altered in transit (checksum field intact, crc32/crc32c):
+   wherever the reader would have accepted the fragment, it now fails AT THAT FRAGMENT with
+   errMismatchedChecksums, and the error is sticky (the message is never reported complete) *)
+Theorem C02_detect_data : forall st f f' rest rest' st1,
+  r_recv (rs_with_in st (f :: rest)) = Some (0, st1) ->
+  f_ctype f = c_ChecksumTypeCrc32 \/ f_ctype f = c_ChecksumTypeCrc32C ->
+  f_ctype f' = f_ctype f -> f_ck f' = f_ck f ->
+  one_byte_diff (concat (f_chunks f)) (concat (f_chunks f')) ->
+  exists st2, r_recv (rs_with_in st (f' :: rest')) = Some (8, st2) /\ rs_err st2 = 8.
+Proof. exact r_recv_detect_data. Qed.
+
+(* a checksum byte altered in transit (any change of the checksum field, data intact) *)
+Theorem C02_detect_cksum : forall st f f' rest rest' st1,
+  r_recv (rs_with_in st (f :: rest)) = Some (0, st1) ->
+  f_ctype f' = f_ctype f -> f_chunks f' = f_chunks f -> f_ck f' <> f_ck f ->
+  exists st2, r_recv (rs_with_in st (f' :: rest')) = Some (8, st2) /\ rs_err st2 = 8.
+Proof. exact r_recv_detect_ck. Qed.
+
+(* the checksum type changing mid-message fails the read at that fragment *)
+Theorem C02_type_change : forall st c f rest, rs_err st = 0 -> rs_ck st = Some c ->
+  ck_typecode c <> f_ctype f ->
+  exists st2, r_recv (rs_with_in st (f :: rest)) = Some (7, st2) /\ rs_err st2 = 7.
+Proof. exact recv_type_change. Qed.
+
 Print Assumptions C02_running.
+Print Assumptions C02_crc_detects_one_byte.
+Print Assumptions C02_detect_data.
+Print Assumptions C02_detect_cksum.
+Print Assumptions C02_type_change.
 Print Assumptions C02_pool_reset.
 
 (* the standard check values of the two polynomials ("123456789") *)
